@@ -132,7 +132,7 @@ def check(pid, tier, args):
     out = os.path.join(vlib.scratch(), "loads")
     os.makedirs(out, exist_ok=True)
     extra = []
-    if pid == "C07":
+    if pid in ("C07", "C19"):
         # the ways a client may use a loader (spec/Usage.tla): the whole product, from TLC
         ru = vlib.tlc("Usage", "Usage.cfg", heap="1g", workers=1)
         if ru.violated or len(ru.printed) != ru.distinct:
